@@ -1,6 +1,8 @@
 #!/bin/sh
-# tools/proc_prop.sh <PROP>: round-3 helper -- runs tools/proc_seed.py for both deliverables of a seeding agent, one after the other (they share a scratch worktree)
-P=$1
+# tools/proc_prop.sh <TAG>: round-3 helper -- runs tools/proc_seed.py for both deliverables of a seeding agent (TAG = property id, optionally followed by
+# a letter for a second agent on the same property), one after the other (they share a scratch worktree)
+T=$1
+P=$(echo $T | cut -c1-3)
 for k in 1 2; do
-  [ -f /tmp/seed3/$P.out/patch_$k.diff ] && /verif/.venv/bin/python /verif/tools/proc_seed.py $P $k /tmp/seed3/$P.out /tmp/seed3/$P
-done > /tmp/seed3/$P.result.txt 2>&1
+  [ -f /tmp/seed3/$T.out/patch_$k.diff ] && SEED_TAG=$T /verif/.venv/bin/python /verif/tools/proc_seed.py $P $k /tmp/seed3/$T.out /tmp/seed3/$T
+done > /tmp/seed3/$T.result.txt 2>&1
